@@ -218,12 +218,22 @@ def _check_scale(ctx: Ctx, ser_terms: Dict[str, T.Term]) -> None:
     E = T.substitute(loc['average_energy'], {'M': T.Term.sym('self._M')})
     # returned table is symbols / sqrt(average_energy)
     rets = [n for n in walk_no_nested(cc.node) if isinstance(n, ast.Return)]
-    norm_ok = len(rets) == 1 and norm(rets[0].value).replace('np.', 'math.') == 'symbols / math.sqrt(average_energy)'
-    if not norm_ok and len(rets) == 1 and isinstance(rets[0].value, ast.Name):
-        # in-place form: `symbols /= sqrt(average_energy); return symbols`
-        augs = [n for n in cc.node.body if isinstance(n, ast.AugAssign) and isinstance(n.target, ast.Name) and n.target.id == rets[0].value.id]
-        norm_ok = len(augs) == 1 and isinstance(augs[0].op, ast.Div) and \
-            norm(augs[0].value).replace('np.', 'math.') == 'math.sqrt(average_energy)' and rets[0].value.id == 'symbols'
+    # the returned table is symbols / sqrt(average_energy): out of place, or in place (`symbols /= ..; return symbols`); the divisor is
+    # compared as a TERM, so naming it first (`scale = math.sqrt(average_energy)`) changes nothing
+    def _is_sqrt_E(e: ast.AST) -> bool:
+        try:
+            env_ = T.Env(M, cc, opaque=set())
+            env_.vars.update(loc)
+            return T.from_ast(e, env_) == T.t_pow(loc['average_energy'], T.Term.const(Fraction(1, 2)))
+        except T.Unknown:
+            return False
+    norm_ok = False
+    if len(rets) == 1 and isinstance(rets[0].value, ast.BinOp) and isinstance(rets[0].value.op, ast.Div) \
+            and norm(rets[0].value.left) == 'symbols':
+        norm_ok = _is_sqrt_E(rets[0].value.right)
+    elif len(rets) == 1 and isinstance(rets[0].value, ast.Name) and rets[0].value.id == 'symbols':
+        augs = [n for n in cc.node.body if isinstance(n, ast.AugAssign) and isinstance(n.target, ast.Name) and n.target.id == 'symbols']
+        norm_ok = len(augs) == 1 and isinstance(augs[0].op, ast.Div) and _is_sqrt_E(augs[0].value)
     # half spacing of the grid from the complex(...) literal
     h2 = None
     for n in walk_no_nested(cc.node):
